@@ -29,6 +29,11 @@ def run(ctx):
     cov, sviol, ssamples = shm.run_sched(ctx, b, "C11", 12000 if q else 400000)
     ctx.log("sched: %d scenarios, %d completed updates observed, stops %d" % (cov["scenarios"], cov["c11_observations"], cov["stops"]))
     viol += sviol
+    # "odd for the whole duration of an update" presupposes one writer: the whole daemon, stopped by signals
+    # or by the death of a worker thread, must never have two writers of the segment alive at once
+    wviol, sig_cov = shm.single_writer_runs(ctx)
+    viol += wviol
+    ctx.log("whole daemon under signals / worker deaths, single-writer monitor: %s" % sig_cov)
     inconclusive = None
     if sw["evaluations"] != 65536 or lost or cov["shards_lost"]:
         inconclusive = "sweep incomplete (%d of 65536 start values, %d shards lost)" % (sw["evaluations"], lost + cov["shards_lost"])
@@ -45,6 +50,7 @@ def run(ctx):
         "exhaustive_over": "start value of the generation (all 65536)",
         "sweep": dict(sw, classes=classes),
         "sched": cov,
+        "whole_daemon_single_writer_monitor": sig_cov,
     }
     finish(ctx, coverage, viol, inconclusive, assumptions=["a third-party reader is modelled by pread() of the generation bytes of the backing file at each writer hook point"])
 
